@@ -51,6 +51,43 @@ CLAIMED = {
              "are measured at stack level; CURVE/NOISE parsers are not modelled.",
         note=COMMON_NOTE + "Memory safety and panic freedom of Rust code paths not reached by the generators are out of scope.",
         design="§8 C07"),
+    "C05": dict(
+        engine="M2 Engine + Pair",
+        technique="Lean 4: Kahn-network confluence of the two-engine pair system (prefix-monotone responses, least fixpoint), convergence of "
+                  "the staged greeting by a causal chain argument, failure theorems, table facts by kernel `decide` over the re-extracted "
+                  "tables; tie: translator (three compatibility tables) + pair-mode correspondence under random delivery schedules + "
+                  "bind/connect matrix over tcp/ipc/inproc",
+        text="Proof over the pair model: for EVERY delivery schedule (direction, byte counts, one byte at a time .. all at once) two "
+             "schedules that deliver everything end in the same states and app actions (pair_confluent); compatible NULL endpoints "
+             "always both reach the data phase and agree on version, peer socket type and identity (no mutual wait); incompatible socket "
+             "types, NULL-vs-PLAIN and wrong PLAIN credentials end with both sides closed and no handshake reported; the pairing relation "
+             "is symmetric and is one table for ZMTP/2.0 and 3.x (fixed in 87f26bd). 11 theorems. KNOWN FINDING: the inproc table is "
+             "narrower (theorem inproc_differs_counterexample). Partial: PLAIN convergence is checked by correspondence only; CURVE/NOISE "
+             "pairs are outside the model.",
+        note=COMMON_NOTE + "End-of-stream propagation is a rule of the pair model (performed by the session driver in the code).",
+        design="§8 C05"),
+    "C12": dict(
+        engine="M6 Routing",
+        technique="Lean 4 refinement proof: the subscription trie refines the multiset of active subscriptions for every call history "
+                  "(structural induction over topic and history); tie: lock-step correspondence on the real SubscriptionTrie + multiset oracle",
+        text="Proof, full strength for the matcher: after any history of subscribe/unsubscribe over arbitrary byte strings, matches(t) holds "
+             "iff some active subscription is a byte-prefix of t; N subscribes need N unsubscribes; unsubscribing an absent topic is a "
+             "no-op; the empty topic matches everything; get_all_topics lists exactly the active topics once. 10 theorems. Partial with "
+             "respect to the whole property: filter-on-first-frame glue, per-publisher ordering (C01/C08) and the non-blocking publisher are "
+             "not yet covered by theorems here; concurrent match-while-modify only at lock granularity.",
+        note=COMMON_NOTE + "HashMap iteration order is canonicalised (sorted) before comparison.",
+        design="§8 C12"),
+    "C13": dict(
+        engine="M6 Routing",
+        technique="Lean 4 invariant + refinement to cyclic order for the load balancer (every reachable state, every add/remove/next history); "
+                  "tie: lock-step correspondence on the real LoadBalancer + round-robin oracle",
+        text="Proof for the rotation: every reachable balancer state satisfies the representation invariant; k consecutive selections return "
+             "the peers in cyclic list order; each peer is selected exactly once per round (no starvation); adding never changes who is "
+             "next and is idempotent; removing never skips or repeats a peer; a removed peer is never selected. 14 theorems. Partial: the "
+             "readiness-aware sweep of the orchestrator (skip full peers, exactly-one placement) and the wait-for-first-peer wake-up are "
+             "not yet covered by theorems here.",
+        note=COMMON_NOTE,
+        design="§8 C13"),
     "C06": dict(
         engine="M2 Engine",
         technique="Lean 4 inductive invariant over every reachable engine state for every peer byte stream and segmentation "
